@@ -74,6 +74,14 @@ def domain(key, small=False):
     return sorted(set(d))
 
 
+def spelled_type_key(spelling):
+    sp = spelling.replace("const", "").strip()
+    for k, t in TYPES.items():
+        if t[0] == sp or (k == "b" and sp == "bool"):
+            return k
+    return sp
+
+
 def tup(x):
     """JSON lists -> tuples (AST round trip)."""
     if isinstance(x, list):
@@ -417,7 +425,7 @@ class FnPrinter:
             name = self.nm(s[2])
             self.vars[s[2]] = s[3]
             if "&" in s[1]:
-                self.vtypes[s[2]] = "ref"
+                self.vtypes[s[2]] = "ref:" + spelled_type_key(s[1].split("&")[0])
             o = self.declname(s[2], s[3])
             text = self.nm(s[1])
             self.emit(ind, text, text, [(re.search(r"\b%s\b" % re.escape(name), text).start(), o)])
@@ -546,7 +554,7 @@ class FnPrinter:
             t = prm[0] if " " in prm[0] or "*" in prm[0] or "&" in prm[0] or "<" in prm[0] else ctype(prm[0], self.lang)
             sep = "" if t.endswith(("*", "&")) else " "
             o = self.declname(prm[1], self.vars.get(prm[1], "int"))
-            self.vtypes[prm[1]] = prm[0]
+            self.vtypes[prm[1]] = ("ref:" + spelled_type_key(prm[0].split("&")[0])) if "&" in prm[0] else prm[0]
             occs.append((pos + len(t) + len(sep), o))
             ps.append(t + sep + self.nm(prm[1]))
             pos += len(ps[-1]) + 2
